@@ -66,7 +66,17 @@ func genDefect(t *rapid.T) defect {
 		}}
 	case 1:
 		blanks := rapid.SliceOfN(rapid.SampledFrom([]string{"", " ", "\t", "  "}), 1, 3).Draw(t, "blanks")
-		return defect{"empty-methods", fmt.Sprintf("methods %q %s", blanks, path), func(r *rux.Router) { r.Add(path, noop, blanks...) }}
+		observed := rapid.Bool().Draw(t, "preparedAndLookedAtFirst")
+		return defect{"empty-methods", fmt.Sprintf("methods %q %s (prepared route, read first: %v)", blanks, path, observed), func(r *rux.Router) {
+			if observed {
+				// the application builds the route, prints / inspects it (read-only API) and only then attaches it
+				rt := rux.NewRoute(path, noop, blanks...)
+				model.ObserveRoute(rt)
+				rt.AttachTo(r)
+				return
+			}
+			r.Add(path, noop, blanks...)
+		}}
 	case 2:
 		bad := rapid.OneOf(rapid.SampledFrom(badMethodTokens), rapid.StringMatching(`[A-Z]{1,7}`).Filter(func(s string) bool {
 			for _, m := range model.Methods {
@@ -136,7 +146,7 @@ func genDefect(t *rapid.T) defect {
 		v := rapid.IntRange(0, total-g).Draw(t, "variadicMw")
 		u := total - g - v
 		inGroupUse := rapid.Bool().Draw(t, "useInsideGroup")
-		style := rapid.IntRange(0, 3).Draw(t, "regStyle")
+		style := rapid.IntRange(0, 4).Draw(t, "regStyle")
 		return defect{"too-many-handlers", fmt.Sprintf("group=%d variadic=%d Route.Use=%d (total %d) useInsideGroup=%v style=%d", g, v, u, total, inGroupUse, style), func(r *rux.Router) {
 			body := func() {
 				switch style {
@@ -151,6 +161,8 @@ func genDefect(t *rapid.T) defect {
 				case 2:
 					rt := rux.NewNamedRoute("n", path, noop, "GET").Use(nMw(v + u)...)
 					r.AddRoute(rt)
+				case 4: // a resource whose controller's Uses() brings the per-action middleware
+					r.Resource("/res", &usesCtl{u}, nMw(v)...)
 				default:
 					r.Any(path, noop, nMw(v+u)...)
 				}
@@ -354,3 +366,11 @@ func propTotal(t *rapid.T) {
 }
 
 func TestPropTotal(t *testing.T) { rapid.Check(t, propTotal) }
+
+// usesCtl is a resource controller with one action and n per-action middleware for it.
+type usesCtl struct{ n int }
+
+func (c *usesCtl) Index(ctx *rux.Context) {}
+func (c *usesCtl) Uses() map[string][]rux.HandlerFunc {
+	return map[string][]rux.HandlerFunc{"Index": nMw(c.n)}
+}
